@@ -3156,7 +3156,17 @@ class BaseInterpreter(Generic[TContext, TEvent]):
         Returns:
             bool: `True` when the named state is active.
         """
-        params = self._resolve_params(guard.params, event)
+        # 🧯 The params may be computed by a USER callable. If it raises, the
+        #    guard counts as False - exactly like a raising user guard - so
+        #    that a later candidate is still considered and nothing escapes
+        #    to the caller of `send()`.
+        try:
+            params = self._resolve_params(guard.params, event)
+        except Exception:
+            logger.exception(
+                "🔥 The params of a 'stateIn' guard raised; treating as False."
+            )
+            return False
         target = None
         if isinstance(params, dict):
             target = params.get("state", params.get("value"))
